@@ -19,7 +19,7 @@ RULE = ('three aligned criteria columns A,B,C (rows 1-8) over {int, float, 0, ne
         'aligned and mis-sized, over column vectors, horizontal vectors and 2-D blocks (mis-sized also with equal row counts but different '
         'column counts and vector against block); contents re-drawn through overrides. Non-trivial: at least one position is accepted and at least one '
         'rejected by the criteria, or the ranges are mis-sized; distinct by (formula, valuation)')
-ASSUMPTIONS = ['vf/xlref criterion semantics = the clauses of the statement', 'booleans and dates are not placed in criteria ranges; text is not placed in the target range',
+ASSUMPTIONS = ['vf/xlref criterion semantics = the clauses of the statement', 'booleans and dates are not placed in criteria ranges; dates are not placed in the target range (texts are: a sum passes over them, an average over them is unjudged)',
                'blank vs numeric criterion, numeric text vs number, boolean target cells: either reading accepted']
 HOST_SETTINGS = {'shards': lambda shards: [0, len(shards) - 1], 'env': {'VERIF_HOST_DECIMAL': '3'}}
 FLOORS = {'quick': {'evaluations': 8000, 'nontrivial': 3000}, 'thorough': {'evaluations': 250000, 'nontrivial': 100000}}
@@ -70,6 +70,8 @@ def target_cell(rng):
         return rng.random() < 0.5
     if k < 0.93:
         return -rng.randrange(1, 20)
+    if k < 0.97:
+        return rng.choice(['n/a', 'txt', '12 pcs', '-'])      # a remark where a number belongs: a conditional sum passes over it
     return None
 
 
